@@ -88,6 +88,16 @@ def extended_class(cls, variant=0):
             """A public method that happens to be a staticmethod."""
             return jobs + spare
 
+        def blank_doc(self, n: int = 0) -> int:
+            ""
+            return n
+
+        @property
+        def spaced_doc(self) -> int:
+            """   
+            """
+            return 7
+
         def _hidden(self) -> None:
             """Not public."""
 
